@@ -211,8 +211,24 @@ class Writer:
                 title = ''
                 if d['title']:
                     q = d['tq']
-                    title = ' ' + q + d['title'] + (')' if q == '(' else q)
-                out.append(L(ind + '[' + d['spelled'] + ']: ' + dest + title, False, [b] if not out else None))
+                    title = q + d['title'] + (')' if q == '(' else q)
+                ci = ' ' * d.get('cont_indent', 0)
+                first = ind + '[' + d['spelled'] + ']:'
+                rest = []
+                if d.get('dest_nl'):
+                    rest.append(ci + dest)
+                else:
+                    first += ' ' + dest
+                if title:
+                    if d.get('title_nl'):
+                        rest.append(ci + title)
+                    elif rest:
+                        rest[-1] += ' ' + title
+                    else:
+                        first += ' ' + title
+                out.append(L(first, False, [b] if not out else None))
+                for r in rest:
+                    out.append(L(r, False))
                 d['node'] = b
             return out
         if k == 'table':
